@@ -132,6 +132,17 @@ class SharedMemoryFileBufferedCollection(FileBufferedCollection):
                         # rather than the possibly stale data of this instance.
                         self._data = cached_data["contents"]
                         self._save_to_resource()
+                        if force:
+                            # Have to update the metadata on a force flush
+                            # because we could modify this item again later,
+                            # leading to another (possibly forced) flush
+                            # afterwards that will appear invalid if the
+                            # metadata isn't updated to the metadata after the
+                            # current flush. The metadata must only be updated
+                            # when this flush wrote the file: otherwise a
+                            # change made by someone else would be adopted
+                            # here and silently overwritten by a later flush.
+                            cached_data["metadata"] = self._get_file_metadata()
                 finally:
                     # Whether or not an error was raised, the cache must be
                     # cleared to ensure a valid final buffer state, unless
@@ -143,12 +154,6 @@ class SharedMemoryFileBufferedCollection(FileBufferedCollection):
                     if not force:
                         del type(self)._buffer[self._filename]
                     else:
-                        # Have to update the metadata on a force flush because
-                        # we could modify this item again later, leading to
-                        # another (possibly forced) flush afterwards that will
-                        # appear invalid if the metadata isn't updated to the
-                        # metadata after the current flush.
-                        cached_data["metadata"] = self._get_file_metadata()
                         cached_data["modified"] = False
         else:
             # If this object is still buffered _and_ this wasn't a force flush,
